@@ -384,15 +384,50 @@ theorem encodeBlocks_spec (cs : List Nat) (bs : List Block) (e : Encoder) (out :
       simp only [pot, List.length_cons] at *
       exact ⟨by omega, h2.2.1, h1.2.2.trans h2.2.2⟩
 
-/-- `addN` never overruns `buf`, and keeps the invariant (at most 6 blocks per call) -/
+theorem finishWrite_cases (e : Encoder) (out : Array Nat) (wf : Bool) :
+    (out.size > bufLen ∧ finishWrite e out wf = (e, .panic)) ∨
+    (out.size ≤ bufLen ∧ wf = true ∧ finishWrite e out wf = ({ e with hasReturnedError := true }, .err .write)) ∨
+    (out.size ≤ bufLen ∧ wf = false ∧ finishWrite e out wf = (e, .ok out)) := by
+  unfold finishWrite
+  by_cases h : out.size > bufLen
+  · left; simp [h]
+  · right
+    cases wf <;> simp [h] <;> omega
+
+theorem Inv.setErr {e : Encoder} (h : Inv e) (b : Bool) : Inv { e with hasReturnedError := b } :=
+  ⟨h.bitsN, h.q0, h.q1, h.p0, h.p1, h.p2⟩
+
+theorem finishWrite_spec (e : Encoder) (out : Array Nat) (wf : Bool) (hi : Inv e) (hs : out.size ≤ bufLen) :
+    (finishWrite e out wf).2 ≠ .panic ∧ Inv (finishWrite e out wf).1 := by
+  rcases finishWrite_cases e out wf with ⟨h, _⟩ | ⟨_, _, h⟩ | ⟨_, _, h⟩
+  · omega
+  · rw [h]; exact ⟨by simp, hi.setErr true⟩
+  · rw [h]; exact ⟨by simp, hi⟩
+
+theorem emitEOI_spec (e : Encoder) (out : Array Nat) (hi : Inv e) :
+    4 * (emitEOI e out).2.size ≤ 4 * out.size + e.bitsN + 15 ∧ Inv (emitEOI e out).1 ∧
+    SameCfg e (emitEOI e out).1 := by
+  unfold emitEOI
+  split
+  · have h2 := emitBits_spec e out 0x7F 7 hi.bitsN
+    generalize emitBits e out 0x7F 7 = r2 at h2
+    obtain ⟨e2, out2⟩ := r2
+    simp only [pot] at h2
+    refine ⟨?_, hi.of_same h2.2.2.1 h2.2.2.2.1 h2.2.1, h2.2.2.1⟩
+    simp only [Array.size_push]
+    omega
+  · exact ⟨by simp only; omega, hi, SameCfg.refl _⟩
+
+/-- `addN` never overruns `buf`, and keeps the invariant (at most 6 blocks per call):
+    at most 6·432 bytes of entropy-coded data, one more for the padding, two for EOI -/
 theorem addN_spec (e : Encoder) (wfail : Bool) (blocks : List Block) (hi : Inv e) (hl : blocks.length ≤ 6) :
     (addN e wfail blocks).2 ≠ .panic ∧ Inv (addN e wfail blocks).1 := by
   unfold addN
   split
-  · exact ⟨by simp, ⟨hi.bitsN, hi.q0, hi.q1, hi.p0, hi.p1, hi.p2⟩⟩
+  · exact ⟨by simp, hi.setErr true⟩
   · rename_i hv
     split
-    · exact ⟨by simp, ⟨hi.bitsN, hi.q0, hi.q1, hi.p0, hi.p1, hi.p2⟩⟩
+    · exact ⟨by simp, hi.setErr true⟩
     · simp only
       have hv' : ∀ b ∈ blocks, blockIsValid b = true := by
         simpa using hv
@@ -405,29 +440,178 @@ theorem addN_spec (e : Encoder) (wfail : Bool) (blocks : List Block) (hi : Inv e
       obtain ⟨e1, out1⟩ := r
       have hb0 := hi.bitsN
       simp only [pot, List.size_toArray, List.length_nil] at h1
-      have hsz : out1.size ≤ 2594 := by
-        have : 1728 * blocks.length ≤ 1728 * 6 := Nat.mul_le_mul_left _ hl
-        omega
+      have h2 := emitEOI_spec e1 out1 h1.2.1
+      generalize emitEOI e1 out1 = r2 at h2
+      obtain ⟨e2, out2⟩ := r2
+      simp only at h2 ⊢
+      have : 1728 * blocks.length ≤ 1728 * 6 := Nat.mul_le_mul_left _ hl
+      have := h1.2.1.bitsN
+      exact finishWrite_spec e2 out2 wfail h2.2.1 (by simp only [bufLen]; omega)
+
+/-- the main path of `addN` (all blocks valid, units remaining), as one expression -/
+theorem addN_main (e : Encoder) (wf : Bool) (bs : List Block) (hv : bs.all blockIsValid = true)
+    (h0 : ¬ e.numAddsRemaining = 0) :
+    addN e wf bs =
+      finishWrite
+        (emitEOI (encodeBlocks (whichComponents bs.length) bs { e with numAddsRemaining := e.numAddsRemaining - 1 } #[]).1
+          (encodeBlocks (whichComponents bs.length) bs { e with numAddsRemaining := e.numAddsRemaining - 1 } #[]).2).1
+        (emitEOI (encodeBlocks (whichComponents bs.length) bs { e with numAddsRemaining := e.numAddsRemaining - 1 } #[]).1
+          (encodeBlocks (whichComponents bs.length) bs { e with numAddsRemaining := e.numAddsRemaining - 1 } #[]).2).2 wf := by
+  unfold addN
+  simp only [hv, h0, Bool.not_true, Bool.false_eq_true, ↓reduceIte]
+
+/-- the shape of `resetFinish`: a `finishWrite` of some header on an Encoder with the new fields -/
+theorem resetFinish_shape (e : Encoder) (wf : Bool) (ct : Nat) (w h : Int) :
+    ∃ e1 out1, resetFinish e wf ct w h = finishWrite e1 out1 wf ∧
+      e1.numAddsRemaining = (if ct ≠ colorTypeYCbCr420
+        then (((w + 7) / 8).toNat % 4294967296) * (((h + 7) / 8).toNat % 4294967296) % 4294967296
+        else (((w + 15) / 16).toNat % 4294967296) * (((h + 15) / 16).toNat % 4294967296) % 4294967296) ∧
+      e1.hasReturnedError = false ∧ e1.colorType = ct := by
+  unfold resetFinish
+  exact ⟨_, _, rfl, rfl, rfl, rfl⟩
+
+/-- the state invariant of every reachable Encoder: once a colour type is set, `Inv` holds -/
+def WF (e : Encoder) : Prop := (e.colorType = 1 ∨ e.colorType = 3 ∨ e.colorType = 6) → Inv e
+
+/-- the entries of a quantisation table argument are bytes (`[64]uint8`) -/
+def QBytes (q : Quant) : Prop := ∀ i, i < 64 → q.getD i 0 ≤ 255
+
+theorem quantIsValid_spec (q : Quant) (h : quantIsValid q = true) (hb : QBytes q) : QOK q := by
+  unfold quantIsValid at h
+  simp only [List.all_eq_true, List.mem_range, bne_iff_ne, ne_eq] at h
+  intro i hi
+  have := h i hi
+  have := hb i hi
+  omega
+
+theorem std_quant_facts :
+    (setToStandardValues 0 defaultQuality).toList.length = 64 ∧
+    (setToStandardValues 1 defaultQuality).toList.length = 64 ∧
+    (setToStandardValues 0 defaultQuality).toList.all (fun x => 1 ≤ x && x ≤ 255) = true ∧
+    (setToStandardValues 1 defaultQuality).toList.all (fun x => 1 ≤ x && x ≤ 255) = true := by
+  decide +kernel
+
+theorem std_quant_ok (k : Nat) (hk : k < 2) : QOK (setToStandardValues k defaultQuality) := by
+  intro i hi
+  rw [getD_toList, List.getD_eq_getElem?_getD]
+  have hf := std_quant_facts
+  have hk' : k = 0 ∨ k = 1 := by omega
+  rcases hk' with rfl | rfl
+  · have hlt : i < (setToStandardValues 0 defaultQuality).toList.length := by rw [hf.1]; exact hi
+    rw [List.getElem?_eq_getElem hlt, Option.getD_some]
+    have := (List.all_eq_true.mp hf.2.2.1) _ (List.getElem_mem hlt)
+    simpa using this
+  · have hlt : i < (setToStandardValues 1 defaultQuality).toList.length := by rw [hf.2.1]; exact hi
+    rw [List.getElem?_eq_getElem hlt, Option.getD_some]
+    have := (List.all_eq_true.mp hf.2.2.2) _ (List.getElem_mem hlt)
+    simpa using this
+
+theorem dht_size : hardCodedDHTSegments.size = 424 := by decide +kernel
+
+theorem copyInto_size (out s : Array Nat) : (copyInto out s).size ≤ out.size + s.size := by
+  unfold copyInto
+  simp only [Array.size_append, Array.size_extract]
+  omega
+
+theorem encodeDQT_size (e : Encoder) (out : Array Nat) : (encodeDQT e out).size ≤ out.size + 134 := by
+  unfold encodeDQT
+  simp only
+  split <;> simp [Array.size_append, Array.size_push, Array.size_map, Array.size_range] <;> omega
+
+theorem encodeSOF0_size (e : Encoder) (out : Array Nat) (w h : Int) : (encodeSOF0 e out w h).size ≤ out.size + 19 := by
+  unfold encodeSOF0
+  simp only
+  split <;> simp [Array.size_append] <;> omega
+
+theorem encodeDHT_size (e : Encoder) (out : Array Nat) : (encodeDHT e out).size ≤ out.size + 424 := by
+  unfold encodeDHT
+  simp only
+  have := copyInto_size out (if e.colorType = colorTypeGray then hardCodedDHTSegments.extract 0 (hardCodedDHTSegments.size / 2) else hardCodedDHTSegments)
+  have h2 : (if e.colorType = colorTypeGray then hardCodedDHTSegments.extract 0 (hardCodedDHTSegments.size / 2) else hardCodedDHTSegments).size ≤ 424 := by
+    split <;> simp [Array.size_extract, dht_size]
+  omega
+
+theorem encodeSOSHeader_size (e : Encoder) (out : Array Nat) : (encodeSOSHeader e out).size ≤ out.size + 14 := by
+  unfold encodeSOSHeader
+  simp only
+  have := copyInto_size out (if e.colorType = colorTypeGray
+    then #[0xFF, 0xDA, 0x00, 0x08, 0x01, 0x01, 0x00, 0x00, 0x3F, 0x00]
+    else #[0xFF, 0xDA, 0x00, 0x0C, 0x03, 0x01, 0x00, 0x02, 0x11, 0x03, 0x11, 0x00, 0x3F, 0x00])
+  have h2 : (if e.colorType = colorTypeGray
+    then (#[0xFF, 0xDA, 0x00, 0x08, 0x01, 0x01, 0x00, 0x00, 0x3F, 0x00] : Array Nat)
+    else #[0xFF, 0xDA, 0x00, 0x0C, 0x03, 0x01, 0x00, 0x02, 0x11, 0x03, 0x11, 0x00, 0x3F, 0x00]).size ≤ 14 := by
+    split <;> simp
+  omega
+
+theorem header_size (e : Encoder) (w h : Int) :
+    (encodeSOSHeader e (encodeDHT e (encodeSOF0 e (encodeDQT e #[0xFF, 0xD8]) w h))).size ≤ bufLen := by
+  have h1 := encodeDQT_size e #[0xFF, 0xD8]
+  have h2 := encodeSOF0_size e (encodeDQT e #[0xFF, 0xD8]) w h
+  have h3 := encodeDHT_size e (encodeSOF0 e (encodeDQT e #[0xFF, 0xD8]) w h)
+  have h4 := encodeSOSHeader_size e (encodeDHT e (encodeSOF0 e (encodeDQT e #[0xFF, 0xD8]) w h))
+  have h0 : (#[0xFF, 0xD8] : Array Nat).size = 2 := rfl
+  simp only [bufLen]
+  omega
+
+theorem resetFinish_spec (e : Encoder) (wfail : Bool) (ct : Nat) (w h : Int)
+    (hq0 : QOK e.quants0) (hq1 : QOK e.quants1) :
+    (resetFinish e wfail ct w h).2 ≠ .panic ∧ Inv (resetFinish e wfail ct w h).1 := by
+  unfold resetFinish
+  simp only
+  generalize (if ct ≠ colorTypeYCbCr420
+    then (((w + 7) / 8).toNat % 4294967296) * (((h + 7) / 8).toNat % 4294967296) % 4294967296
+    else (((w + 15) / 16).toNat % 4294967296) * (((h + 15) / 16).toNat % 4294967296) % 4294967296) = nn
+  have hinv : Inv { e with hasReturnedError := false, colorType := ct, prevDC0 := 0, prevDC1 := 0, prevDC2 := 0, numAddsRemaining := nn, bitsV := 0, bitsN := 0 } :=
+    ⟨by simp, hq0, hq1, by simp, by simp, by simp⟩
+  exact finishWrite_spec _ _ wfail hinv (header_size _ w h)
+
+/-- `Reset` never overruns `buf` and establishes the invariant -/
+theorem reset_spec (e : Encoder) (wfail : Bool) (ct : Nat) (w h : Int) (qs : Option (Quant × Quant))
+    (hw : WF e) (hq : ∀ q0 q1, qs = some (q0, q1) → QBytes q0 ∧ QBytes q1) :
+    (reset e wfail ct w h qs).2 ≠ .panic ∧ WF (reset e wfail ct w h qs).1 := by
+  have keep : WF { e with hasReturnedError := true } := fun hc => by
+    have := hw hc; exact ⟨this.bitsN, this.q0, this.q1, this.p0, this.p1, this.p2⟩
+  unfold reset
+  split
+  · exact ⟨by simp, keep⟩
+  · cases qs with
+    | none =>
+      simp only
+      have := resetFinish_spec { e with quants0 := setToStandardValues 0 defaultQuality, quants1 := setToStandardValues 1 defaultQuality } wfail ct w h (std_quant_ok 0 (by omega)) (std_quant_ok 1 (by omega))
+      exact ⟨this.1, fun _ => this.2⟩
+    | some p =>
+      obtain ⟨q0, q1⟩ := p
+      simp only
       split
-      · have h2 := emitBits_spec e1 out1 0x7F 7 h1.2.1.bitsN
-        generalize emitBits e1 out1 0x7F 7 = r2 at h2
-        obtain ⟨e2, out2⟩ := r2
-        simp only [pot] at h2
-        have hi2 : Inv e2 := h1.2.1.of_same h2.2.2.1 h2.2.2.2.1 h2.2.1
-        have hsz2 : ((out2.push 0xFF).push 0xD9).size ≤ bufLen := by
-          simp only [Array.size_push, bufLen]
-          have : 1728 * blocks.length ≤ 1728 * 6 := Nat.mul_le_mul_left _ hl
-          have := h1.2.1.bitsN
-          omega
-        simp only [Nat.not_lt.mpr hsz2, ↓reduceIte]
-        split
-        · exact ⟨by simp, ⟨hi2.bitsN, hi2.q0, hi2.q1, hi2.p0, hi2.p1, hi2.p2⟩⟩
-        · exact ⟨by simp, hi2⟩
-      · have hsz2 : out1.size ≤ bufLen := by simp only [bufLen]; omega
-        simp only [Nat.not_lt.mpr hsz2, ↓reduceIte]
-        split
-        · exact ⟨by simp, ⟨h1.2.1.bitsN, h1.2.1.q0, h1.2.1.q1, h1.2.1.p0, h1.2.1.p1, h1.2.1.p2⟩⟩
-        · exact ⟨by simp, h1.2.1⟩
+      · exact ⟨by simp, keep⟩
+      · rename_i hv
+        simp only [Bool.or_eq_true, Bool.not_eq_true', not_or, Bool.not_eq_false] at hv
+        have hb := hq q0 q1 rfl
+        have := resetFinish_spec { e with quants0 := q0, quants1 := q1 } wfail ct w h
+          (quantIsValid_spec q0 hv.1 hb.1) (quantIsValid_spec q1 hv.2 hb.2)
+        exact ⟨this.1, fun _ => this.2⟩
+
+/-- `Add1/3/6` never overrun `buf` and keep the invariant -/
+theorem add_spec (e : Encoder) (n : Nat) (wfail : Bool) (blocks : Option (List Block)) (hw : WF e)
+    (hn : n = 1 ∨ n = 3 ∨ n = 6) (hl : ∀ bs, blocks = some bs → bs.length = n) :
+    (add e n wfail blocks).2 ≠ .panic ∧ WF (add e n wfail blocks).1 := by
+  have keep : WF { e with hasReturnedError := true } := fun hc => by
+    have := hw hc; exact ⟨this.bitsN, this.q0, this.q1, this.p0, this.p1, this.p2⟩
+  unfold add
+  split
+  · exact ⟨by simp, hw⟩
+  · split
+    · exact ⟨by simp, keep⟩
+    · rename_i hct
+      cases blocks with
+      | none => exact ⟨by simp, keep⟩
+      | some bs =>
+        simp only
+        have hct' : e.colorType = n := by simpa using hct
+        have hi : Inv e := hw (by rw [hct']; exact hn)
+        have hlen := hl bs rfl
+        have := addN_spec e wfail bs hi (by omega)
+        exact ⟨this.1, fun _ => this.2⟩
 
 
 end WuffsVerif.Jpeg.Buf
